@@ -28,6 +28,8 @@ VERIF_FAIL_PATTERNS = [
     (re.compile(r"^failed to unwrap|^value may be (None|Err)"), "unwrap"),
     (re.compile(r"^index out of bounds|^possible (index|slice) out of bounds"), "bounds"),
     (re.compile(r"^cannot show .* (holds|satisfied)"), "other_vc"),
+    (re.compile(r"^unable to prove post-condition of closure"), "closure_postcondition"),
+    (re.compile(r"^unable to prove (pre|post)-?condition"), "other_vc"),
 ]
 RLIMIT_PAT = re.compile(r"[Rr]esource limit|rlimit|timed? ?out|exceeded", re.I)
 
